@@ -12,7 +12,6 @@ also angle <-> string conversion tools for Aegean
 
 __author__ = "Paul Hancock"
 
-import math
 import numpy as np
 
 
@@ -80,11 +79,13 @@ def dec2dms(x):
         sign = '-'
     else:
         sign = '+'
-    x = abs(x)
-    d = int(math.floor(x))
-    m = int(math.floor((x - d) * 60))
-    s = float(((x - d) * 60 - m) * 60)
-    return '{0}{1:02d}:{2:02d}:{3:05.2f}'.format(sign, d, m, s)
+    # round to the printed precision first (integer hundredths of an arcsecond)
+    # so that a carry propagates into the minutes and degrees
+    n = int(round(abs(x) * 360000))
+    d = n // 360000
+    m = n // 6000 % 60
+    cs = n % 6000
+    return '{0}{1:02d}:{2:02d}:{3:05.2f}'.format(sign, d, m, cs / 100.0)
 
 
 def dec2hms(x):
@@ -104,15 +105,14 @@ def dec2hms(x):
     """
     if not np.isfinite(x):
         return 'XX:XX:XX.XX'
-    # wrap negative RA's
-    if x < 0:
-        x += 360
-    x /= 15.0
-    h = int(x)
-    x = (x - h) * 60
-    m = int(x)
-    s = (x - m) * 60
-    return '{0:02d}:{1:02d}:{2:05.2f}'.format(h, m, s)
+    # round to the printed precision first (integer hundredths of a second of
+    # time) so that a carry propagates into the minutes and hours, and wrap
+    # negative RA's and 24h into [0h, 24h)
+    n = int(round(x * 24000)) % 8640000
+    h = n // 360000
+    m = n // 6000 % 60
+    cs = n % 6000
+    return '{0:02d}:{1:02d}:{2:05.2f}'.format(h, m, cs / 100.0)
 
 
 # The following functions are explained at
